@@ -177,6 +177,8 @@ pub enum Disposition {
 #[derive(Clone, Debug)]
 pub struct WireRec {
     pub idx: usize,
+    /// global ordinal shared with the application logs
+    pub ord: u64,
     pub t_us: u64,
     pub src: SocketAddr,
     pub dst: SocketAddr,
@@ -280,6 +282,7 @@ const SPIN_LIMIT: u32 = 2_000_000;
 impl Net {
     pub fn new(plan: NetPlan, trace: bool) -> Net {
         let _ = take_wedge();
+        app::reset_ord();
         NOW_CALLS.with(|c| c.set((0, 0)));
         Net {
             inner: Arc::new(Mutex::new(NetInner {
@@ -388,7 +391,7 @@ impl Net {
         }
         let idx = g.log.len();
         let due = t + delay_us;
-        let rec = WireRec { idx, t_us: t, src, dst, bytes: bytes.clone(), pkt, disp: Disposition::Deliver(vec![due]), from_stack: false };
+        let rec = WireRec { idx, ord: app::next_ord(), t_us: t, src, dst, bytes: bytes.clone(), pkt, disp: Disposition::Deliver(vec![due]), from_stack: false };
         if g.trace {
             println!("{}", rec.line());
         }
@@ -442,7 +445,7 @@ impl Net {
         }
 
         let pkt = pkt_hdr.ok();
-        let mut rec = WireRec { idx, t_us: t, src, dst, bytes: bytes.to_vec(), pkt, disp: Disposition::Deliver(vec![]), from_stack: true };
+        let mut rec = WireRec { idx, ord: app::next_ord(), t_us: t, src, dst, bytes: bytes.to_vec(), pkt, disp: Disposition::Deliver(vec![]), from_stack: true };
 
         if emsg.is_some_and(|lim| bytes.len() > lim) {
             rec.disp = Disposition::Emsgsize;
